@@ -162,3 +162,24 @@ var narrowTable = map[string]narrowEntry{
 	"ircomp.allocReg:int->uint8": {2, "the loop index is < len(regs) and len(regs) <= 255 because this function is the only place register slices grow, by one, and it refuses at 255", "append-guarded:ircomp|allocReg"},
 	"(*ircomp.ConstantCompiler).ProcessCode:int->int16": {3, "numbers of registers, cells and upvalue destinations: each is allocated through allocReg, which stops at 255", "append-guarded:ircomp|allocReg"},
 }
+
+// boundedFields: struct fields whose value is bounded by memory already held
+// or by an implementation limit (used by R-ALLOC when a size is read from them).
+var boundedFields = map[string]string{
+	"runtime.runtimeOptions.regPoolSize": "host configuration option (rt.WithRegPoolSize), not reachable from Lua",
+}
+
+type sizedField struct{ class, why string }
+
+// sizedFields: fields that carry a program- or data-chosen size.
+var sizedFields = map[string]sizedField{
+	"lib/stringlib.unpacker.intVal": {"data", "integer decoded from the packed string"},
+	"lib/stringlib.packFormatReader.optSize": {"program", "size option parsed from the format string"},
+}
+
+// allocTable: computed-size allocations accepted for a reason the analysis
+// cannot see; keyed "<function>:<what>" with a site count.
+var allocTable = map[string]internalPanic{
+	"(*runtime.array).grow:make([]runtime.Value, n)": {1, "new array size computed by calculateArraySize from the number of integer keys present (at most twice the count); the growth is charged by (*Runtime).SetTable through the byte count (*Table).Set returns (who-may-call rule in C06)"},
+	"lib/stringlib.UnpackString:make([]byte, n)": {1, "'z' option: zi is advanced only while zi < len(u.pack) (the loop returns at the end of the subject), and u.j >= 0, so zi-u.j <= len(u.pack): bounded by the subject already held"},
+}
